@@ -512,7 +512,25 @@ func Forall(bound []*Term, body *Term, pats ...*Term) *Term {
 	if len(bound) == 0 {
 		return body
 	}
-	return &Term{Op: "forall", S: BoolSort, Bound: bound, Args: append([]*Term{body}, pats...)}
+	// a pattern must mention bound variables (constant folding can reduce a trigger term to a constant,
+	// which the solvers reject as a pattern)
+	names := map[string]bool{}
+	for _, b := range bound {
+		names[b.Name] = true
+	}
+	var keep []*Term
+	for _, p := range pats {
+		has := false
+		Walk(p, map[*Term]bool{}, func(x *Term) {
+			if x.Op == "var" && names[x.Name] {
+				has = true
+			}
+		})
+		if has {
+			keep = append(keep, p)
+		}
+	}
+	return &Term{Op: "forall", S: BoolSort, Bound: bound, Args: append([]*Term{body}, keep...)}
 }
 
 // flattenForall merges `forall j :: G ==> (forall x :: B, pattern P)` into one quantifier over
